@@ -30,10 +30,13 @@ class Scheduler:
         self.results = [None] * n
         self.record = record
         self.steps_of = [0] * n
+        self.trace = []  # when recording: (global step, thread, "file:function")
 
     def _point(self, idx, frame):
         self.step += 1
         self.steps_of[idx] += 1
+        if self.record:
+            self.trace.append((self.step, idx, f"{frame.f_code.co_filename.rsplit('/', 1)[-1]}:{frame.f_code.co_name}"))
         tgt = self.preempt.get(self.step)
         if tgt is not None and tgt != idx and self.alive[tgt]:
             self.switches.append((self.step, idx, tgt, f"{frame.f_code.co_filename.rsplit('/', 1)[-1]}:{frame.f_lineno}"))
